@@ -3,8 +3,9 @@
   `Wave_Bank::encode_sample`, `add_sample(Tag)`, `add_sample(header, data)`, `find_gap`,
   `fit_sample`, `find_duplicate`, `Sample::to_bytes` / `from_bytes`, the accessors.
   One definition per C++ function, mirroring the code as it is (after the `fix:` commits to
-  `find_duplicate`, `Wave_File::read`/`parse_chunk` and `add_sample`; the `offset=` defect D11 is
-  modelled as it is).
+  `find_duplicate`, `Wave_File::read`/`parse_chunk` and `add_sample`, including the repair of the
+  `offset=` defect D11: a fresh placement stores the playback window `[start, start + size)` of
+  the sample data and hands out a header with `start = 0`).
 
   Mutation = returned state.  Exceptions / undefined behaviour = `Err`:
     incomplete / notFound / offsetTooBig / noFit / tooLong   the five `InputError`s
@@ -142,19 +143,22 @@ def placeFresh (b : Bank) (size : Nat) : Nat × Nat × List Gap :=
     (u32 g.start, sp, b.gaps.set gid { g with start := u32 (sp + size) })
   | none => (u32 b.currentSize, fitSample b.bankSize size (u32 b.currentSize) (u32 b.maxSize), b.gaps)
 
-/-- the "create a new entry" branch of `add_sample` -/
+/-- the "create a new entry" branch of `add_sample`:
+`copy_n(sample.begin() + header.start, header.size, rom.begin() + start_pos)`, then
+`header.position = start_pos; header.start = 0` -/
 def addFresh (b : Bank) (h : Sample) (data : Bytes) : Except Err (Bank × Nat) :=
   let p := placeFresh b h.size
   if p.2.1 = NO_FIT then .error .noFit else
-  if data.length < h.size ∨ b.rom.length < p.2.1 + h.size then .error .oob else
+  if data.length < h.start + h.size ∨ b.rom.length < p.2.1 + h.size then .error .oob else
   .ok ({ b with currentSize := if p.2.1 ≥ b.currentSize then u32 (p.2.1 + h.size) else b.currentSize,
                 gaps := if p.2.1 > p.1 then p.2.2 ++ [⟨p.1, p.2.1⟩] else p.2.2,
-                rom := writeAt b.rom p.2.1 data h.size,
-                samples := b.samples ++ [{ h with position := p.2.1 }] }, b.samples.length)
+                rom := writeAt b.rom p.2.1 (data.drop h.start) h.size,
+                samples := b.samples ++ [{ h with position := p.2.1, start := 0 }] }, b.samples.length)
 
-/-- `Wave_Bank::add_sample(Sample header, const vector<uint8_t>& sample)` -/
+/-- `Wave_Bank::add_sample(Sample header, const vector<uint8_t>& sample)`; the first test is
+`(uint64_t)header.start + header.size > sample.size()` (two 32-bit fields: the sum is exact) -/
 def addSample (b : Bank) (h : Sample) (data : Bytes) : Except Err (Bank × Nat) :=
-  if h.size > data.length then .error .tooLong else
+  if h.start + h.size > data.length then .error .tooLong else
   if b.bankSize = 0 then .error .divZero else
   match findDuplicate b h data with
   | some d =>
@@ -216,7 +220,9 @@ def decodeFrames (sbits step : Nat) : Nat → Bytes → Nat → List Nat → Exc
       | _, _ => .error .oob
     else .error .hang
 
-/-- `case 'fmt '` of `parse_chunk`; `.ok none` = return 0 -/
+/-- `case 'fmt '` of `parse_chunk`; `.ok none` = return 0.  `step = ((uint32_t)sbits * channels) / 8`
+narrowed to `uint16_t`: the product of two 16-bit values fits 32 bits (it was computed in promoted
+`int` and could overflow before the repair). -/
 def parseFmt (f : Bytes) (pos chunksize : Nat) (w : WaveFile) : Except Err (Option WaveFile) :=
   if chunksize < Tables.wave_fmtMin then .ok none else
   match rd16 f (pos + 0x08), rd16 f (pos + 0x0a), rd16 f (pos + 0x16), rd32 f (pos + 0x0c) with
@@ -282,8 +288,15 @@ def readChunks (f : Bytes) (wavesize : Nat) : Nat → Nat → WaveFile → Excep
     else .ok (some w)
 
 /-- `Wave_File::read` on the contents of an existing file; `.ok none` = return value −1.
+The first test is `load_file`: a file of more than `0x7fffffff` bytes is not read (−1), so the
+`uint32_t filesize` holds the exact size and `pos`, `pos + chunksize + 8` (≤ filesize) and the
+pad increment `pos++` (≤ filesize + 1 ≤ 2^31) never wrap.  (Without that limit a file of exactly
+2^32 − 1 bytes whose last chunk ends at the odd position `0xffffffff` would wrap `pos++` to 0
+and walk the file again from its first byte, for ever; a file of 2^32 bytes or more would be
+read with a truncated size.)
 Fuel: every iteration of the chunk loop consumes at least 8 bytes. -/
 def readWav (f : Bytes) : Except Err (Option WaveFile) :=
+  if f.length > Tables.wave_maxFileSize then .ok none else
   if f.length < Tables.wave_minFileSize then .ok none else
   if f.take 4 ≠ [0x52, 0x49, 0x46, 0x46] then .ok none else
   match rd32 f 4 with
